@@ -2,6 +2,7 @@ package main
 
 import (
 	"fmt"
+	"sort"
 	"go/token"
 	"go/types"
 	"strings"
@@ -501,71 +502,80 @@ func (e *lfEngine) contract(fr *lfFrame, st *lfState, x *ssa.Call, name string) 
 // pinned to a constant are substituted, quotient/remainder definitions
 // a = m'·q + r are used to rewrite a, then all coefficients must be multiples of m.
 func (e *lfEngine) divisible(st *lfState, x Lin, m int64) bool {
-	// collect equalities: pairs c and -c both present
-	eqs := []Lin{}
-	keys := map[string]Lin{}
+	// equalities of the store: pairs c and -c both present (after tightening)
+	var eqs []Lin
+	keys := map[string]bool{}
 	for _, c := range st.cons {
-		keys[c.E.key()] = c.E
+		keys[c.tighten().E.key()] = true
 	}
+	seenEq := map[string]bool{}
 	for _, c := range st.cons {
-		neg := c.E.scale(-1)
-		if _, ok := keys[neg.key()]; ok {
-			eqs = append(eqs, c.E)
+		ct := c.tighten().E
+		neg := Cons{ct.scale(-1)}.tighten().E
+		if keys[neg.key()] && !seenEq[ct.key()] && !seenEq[neg.key()] {
+			seenEq[ct.key()] = true
+			eqs = append(eqs, ct)
 		}
 	}
-	cur := x
-	for iter := 0; iter < 8; iter++ {
-		ok := true
-		for _, k := range cur.T {
-			if k%m != 0 {
-				ok = false
+	sort.Slice(eqs, func(i, j int) bool { return eqs[i].key() < eqs[j].key() })
+	// symbols pinned to a constant
+	pinned := map[Sym]int64{}
+	pin := func(s Sym) (int64, bool) {
+		if v, ok := pinned[s]; ok {
+			return v, v != 1<<62
+		}
+		for c := int64(0); c <= 64; c++ {
+			for _, v := range []int64{c, -c} {
+				if entails(st.cons, geq(linSym(s), linConst(v))) && entails(st.cons, leq(linSym(s), linConst(v))) {
+					pinned[s] = v
+					return v, true
+				}
 			}
 		}
-		if ok && cur.C%m == 0 {
+		pinned[s] = 1 << 62
+		return 0, false
+	}
+	isDiv := func(a Lin) bool {
+		for _, k := range a.T {
+			if k%m != 0 {
+				return false
+			}
+		}
+		return a.C%m == 0
+	}
+	visited := map[string]bool{}
+	var dfs func(cur Lin, depth int) bool
+	dfs = func(cur Lin, depth int) bool {
+		if isDiv(cur) {
 			return true
 		}
-		changed := false
-		for s, k := range cur.T {
+		if depth == 0 || visited[cur.key()] {
+			return false
+		}
+		visited[cur.key()] = true
+		for _, s := range cur.syms() { // deterministic order
+			k := cur.T[s]
 			if k%m == 0 {
 				continue
 			}
-			// pinned to a constant?
-			lo, hi := linSym(s), linSym(s)
-			_ = lo
-			_ = hi
-			pinned := false
-			for c := int64(-64); c <= 64 && !pinned; c++ {
-				if entails(st.cons, geq(linSym(s), linConst(c))) && entails(st.cons, leq(linSym(s), linConst(c))) {
-					cur = cur.add(linSym(s), -k).addConst(k * c)
-					pinned = true
-					changed = true
+			if v, ok := pin(s); ok {
+				if dfs(linSubst(cur, s, linConst(v)), depth-1) {
+					return true
 				}
-				if c == 0 && !pinned {
-					// quick exit for the common case only: try 0 first then give the range a chance
-				}
+				continue
 			}
-			if pinned {
-				break
-			}
-			// an equality s = (other terms) with coefficient ±1 on s
 			for _, eq := range eqs {
 				if ck := eq.T[s]; ck == 1 || ck == -1 {
-					// s = -(eq - ck·s)/ck
-					rest := eq.add(linSym(s), -ck).scale(-ck)
-					cur = cur.add(linSym(s), -k).add(rest, k)
-					changed = true
-					break
+					rest := eq.add(linSym(s), -ck).scale(-ck) // s = rest
+					if dfs(linSubst(cur, s, rest), depth-1) {
+						return true
+					}
 				}
 			}
-			if changed {
-				break
-			}
 		}
-		if !changed {
-			return false
-		}
+		return false
 	}
-	return false
+	return dfs(x, 10)
 }
 
 // ---------------------------------------------------------------- termination templates
